@@ -106,13 +106,98 @@ def roundtrip_registry():
 CASCADE = ['_import_pkcs1_private', '_import_pkcs1_public', '_import_subjectPublicKeyInfo', '_import_x509_cert', '_import_pkcs8', '_import_keyDER']
 
 
+def generate_registry():
+    """C05: RSA.generate(bits, randfunc, e).  Built on the PROVED IntegerNative contracts of contracts/integer.py (sqrt, gcd, lcm,
+    inverse, size_in_bits, shifts, comparisons ...; C14) and the entropy-tape model of contracts/_intcommon.py.  The two calls of
+    Primality.generate_probable_prime use a DERIVED contract: the proved contract of unit prime.generate_probable_prime (exact size,
+    odd, accepted by test_probable_prime = ghost mark g_tested == 1, prime_filter accepted, all entropy from randfunc), whose
+    abstract pure filter predicate is instantiated at the concrete closure: `prime_filter(result)` is evaluated by executing the
+    closure body (filter_p / filter_q are pure: they only read min_p / min_q / e / p / min_distance)."""
+    from . import integer as _integer
+    from .integer import IN
+    from ._intcommon import kw, TAPE_T, sys_untouched
+    from vf.pyvc.values import ClassV
+    from vf.pyvc import loader
+    reg = _integer.registry()
+    reg.overrides['Crypto.Math.Numbers.Integer'] = ClassV(loader.find_class(IN))
+    reg.classes[IN].fields['g_tested?'] = 'int'          # ghost: verdict of the last test_probable_prime run on this object
+    add_rsakey_class(reg)
+    PRIME = 'Crypto.Math.Primality.generate_probable_prime'
+    RF, EB, PF = 'kwarg("randfunc")', 'kwarg("exact_bits")', 'kwarg("prime_filter")'
+    T = 'tape_of(%s)' % RF
+    reg.add(Contract(PRIME, params={'kwargs': 'any'},
+                     requires=['kwargs_only("exact_bits", "randfunc", "prime_filter")', '%s >= 160' % EB], raises={},
+                     ensures={'size': 'pow2(%s - 1) <= ival(result) and ival(result) < pow2(%s)' % (EB, EB),
+                              'odd': 'ival(result) % 2 == 1', 'tested': 'result.g_tested == 1',
+                              'filtered': '%s(result)' % PF,                       # the caller's closure, executed on the result
+                              'reads': '%s.g_pos >= old(%s.g_pos)' % (T, T), 'system_untouched': sys_untouched(T)},
+                     modifies=[T + '.g_pos'], result='obj:' + IN,
+                     assumed='DERIVED: the proved contract of Primality.generate_probable_prime (unit prime.generate_probable_prime, C14/C18) '
+                             'instantiated at a concrete pure prime_filter closure (its abstract predicate filter_ok(fid, value) := the truth '
+                             'value of the closure on the value)'))
+    TPR = 'tape_of(randfunc)'
+    SQ, SP = '(bits // 2)', '(bits - bits // 2)'
+    iv = lambda x: 'ival(%s)' % x
+    LCM = 'spec.integer.lcm(%s - 1, %s - 1)'
+    ISQ = 'spec.integer.isqrt(pow2(2 * %s - 1))'
+
+    def facts(p, q, n, d):
+        """everything one iteration of the loop establishes about its p, q, n, d"""
+        return ['%s == %s * %s' % (iv(n), iv(p), iv(q)),
+                '%s.g_tested == 1 and %s.g_tested == 1' % (p, q),
+                '%s %% 2 == 1 and %s %% 2 == 1' % (iv(p), iv(q)),
+                'pow2(%s - 1) <= %s and %s < pow2(%s)' % (SP, iv(p), iv(p), SP), 'pow2(%s - 1) <= %s and %s < pow2(%s)' % (SQ, iv(q), iv(q), SQ),
+                '%s > %s' % (iv(p), ISQ % SP), '%s > %s' % (iv(q), ISQ % SQ),                # FIPS 186-4 B.3.1: sqrt(2) * 2**(size-1), own size
+                'gcd(%s - 1, ival(e)) == 1 and gcd(%s - 1, ival(e)) == 1' % (iv(p), iv(q)),            # (in the loop `e` is the Integer local)
+                'abs(%s - %s) > pow2(bits // 2 - 100)' % (iv(p), iv(q)),
+                '0 <= %s and %s < %s and (ival(e) * %s - 1) %% %s == 0' % (iv(d), iv(d), LCM % (iv(p), iv(q)), iv(d), LCM % (iv(p), iv(q)))]
+    helper = ['lemma("integer.isqrt_unique", pow2(2 * size_p - 1), ival(min_p), %s)' % (ISQ % 'size_p'),
+              'lemma("integer.isqrt_unique", pow2(2 * size_q - 1), ival(min_q), %s)' % (ISQ % 'size_q'),
+              'size_p == %s and size_q == %s' % (SP, SQ)]
+    OI = 'obj:' + IN
+    rp, rq, rn, rd, ru, re = ('result._%s' % c for c in 'pqndue')
+    bad = 'bits < 1024 or e % 2 == 0 or e < 3'
+    reg.add(Contract(R + 'generate', params={'bits': 'int', 'randfunc': TAPE_T + '|none', 'e': 'int'}, requires=['valid(randfunc)'],
+                     # bad arguments are refused (every normal return proves `domain`); a ValueError for good arguments can only come from
+                     # p.inverse(q), i.e. when the two generated probable primes are not coprime -- impossible for primes
+                     raises={'ValueError': ('only_if', 'True')},
+                     on_raise={'ValueError': ['%s or (gcd_lcm_coprime(ival(p) - 1, ival(q) - 1, e) and gcd(ival(p), ival(q)) != 1)' % bad]},      # (e: entry value)
+                     ensures=dict(
+                         domain='not (%s)' % bad,
+                         private='hasattr(result, "_d") and type(result).__name__ == "RsaKey"',
+                         e='%s == e' % iv(re),
+                         n='%s == %s * %s' % (iv(rn), iv(rp), iv(rq)),
+                         size_n='bitlen(%s) == bits' % iv(rn),                                          # exactly the requested size
+                         probable_primes='%s.g_tested == 1 and %s.g_tested == 1 and %s %% 2 == 1 and %s %% 2 == 1' % (rp, rq, iv(rp), iv(rq)),
+                         ordered='%s < %s' % (iv(rp), iv(rq)),
+                         # after the swap the smaller factor has size_q = bits//2 bits, the larger size_p = bits - bits//2
+                         size_p='pow2(%s - 1) <= %s and %s < pow2(%s)' % (SQ, iv(rp), iv(rp), SQ),
+                         size_q='pow2(%s - 1) <= %s and %s < pow2(%s)' % (SP, iv(rq), iv(rq), SP),
+                         fips_margin_p='%s > %s' % (iv(rp), ISQ % SQ), fips_margin_q='%s > %s' % (iv(rq), ISQ % SP),
+                         coprime_e='gcd(%s - 1, e) == 1 and gcd(%s - 1, e) == 1' % (iv(rp), iv(rq)),
+                         distance='%s - %s > pow2(bits // 2 - 100)' % (iv(rq), iv(rp)),
+                         d='0 <= %s and %s < %s and (e * %s - 1) %% %s == 0' % (iv(rd), iv(rd), LCM % (iv(rp), iv(rq)), iv(rd), LCM % (iv(rp), iv(rq))),
+                         d_large='%s >= pow2(bits // 2)' % iv(rd),
+                         u='0 <= %s and %s < %s and (%s * %s - 1) %% %s == 0' % (iv(ru), iv(ru), iv(rq), iv(rp), iv(ru), iv(rq)),
+                         crt='%s == %s %% (%s - 1) and %s == %s %% (%s - 1)' % (iv('result._dp'), iv(rd), iv(rp), iv('result._dq'), iv(rd), iv(rq)),
+                         reads='%s.g_pos >= old(%s.g_pos)' % (TPR, TPR), system_untouched=sys_untouched(TPR)),
+                     loops={0: {'peel': 1, 'havoc': [TPR + '.g_pos'], 'forget': True,
+                                'types': {'p': OI, 'q': OI, 'n': OI, 'd': OI, 'lcm': OI, 'min_p': OI, 'min_q': OI, 'min_distance': OI,
+                                          'size_p': 'int', 'size_q': 'int'},
+                                'invariant': helper + facts('p', 'q', 'n', 'd') +
+                                             ['ival(e) == old(e)', '%s.g_pos >= old(%s.g_pos)' % (TPR, TPR), sys_untouched(TPR)]}},
+                     modifies=[TPR + '.g_pos'], result=OKEY, options={'int_lemmas': []}))
+    return reg
+
+
 def units(prop, tier):
     from vf.pyunit import pyvc_unit
     if prop == 'C08':
         return [pyvc_unit(prop, 'key.rsa.eq', registry, [KEY + '.__eq__']),
                 pyvc_unit(prop, 'key.rsa.roundtrip.pkcs1', roundtrip_registry, ['spec.keys_harness.rsa_pkcs1_roundtrip'])]
     if prop == 'C05':
-        return [pyvc_unit(prop, 'key.rsa.construct', registry, [R + 'construct'])]
+        return [pyvc_unit(prop, 'key.rsa.construct', registry, [R + 'construct']),
+                pyvc_unit(prop, 'key.rsa.generate', generate_registry, [R + 'generate'], timeout_ms=120000)]
     if prop == 'C13':
         return [pyvc_unit(prop, 'key.rsa.import_der', cascade_registry, [R + f for f in CASCADE])]
     return []
